@@ -349,6 +349,21 @@ fn main() {
 		};
 		h.go(&sys, &Limits::depth(20).wall_secs(300), true);
 	}
+	// both zeros: an order-statistics buffer that is rebuilt on restore must give medians / extrema of the same sign
+	for sp in registry() {
+		if sp.input != InKind::Value {
+			continue;
+		}
+		let name: &'static str = sp.name;
+		let sys = SnapSys {
+			name: format!("{name}/snapshot-at-every-state/signed-zeros"),
+			spec_name: name,
+			params: small_params(&sp),
+			pre_depth: if thorough { |p| (2 * span(p) as u32 + 2).min(7) } else { |p| (2 * span(p) as u32 + 2).min(6) },
+			alphabet: vec![In::V(0.0), In::V(-0.0), In::V(1.0)],
+		};
+		h.go(&sys, &Limits::depth(20).wall_secs(300), true);
+	}
 	// boundary parameters (largest legal windows): one snapshot after a short stream, in both tiers
 	for sp in registry() {
 		let name: &'static str = sp.name;
